@@ -432,7 +432,7 @@ def r7(ctx: Ctx) -> None:
         for p in ctx.paths(q):
             for e in p.walk_events(True):
                 if e.kind == "call" and e.site.how == "ctor" and any("logger" in t.params for t in e.site.targets):
-                    if e.name in ("event_class",):
+                    if "EventABC" in e.site.recv:
                         continue
                     m += 1
                     a = kw(e, "logger")
